@@ -7,7 +7,9 @@ import lib_ints as li
 PID = "C16"
 RULE = ("the finite matrix, run in full in both tiers: every binary operator (15, plus `..`) x every ordered pair of the 8 value "
         "kinds in plain form, the five op-assign operators x 64 kind pairs x {variable, element, property} target, and every "
-        "typed context x every kind; two representatives per kind where it could matter (true/false, 7/0, \"ab\"/\"\", "
+        "typed context x every kind (destructuring contexts at boundary sizes: empty, one-element and collect-only object and "
+        "list patterns x {declaration, assignment, three parameter forms, nested in a list pattern, nested under an object "
+        "key, nested twice, `for` target over a list / an object, whole `for` target}); two representatives per kind where it could matter (true/false, 7/0, \"ab\"/\"\", "
         "non-empty/empty list and object, declared/anonymous function, global/bound builtin) in all left/right combinations. "
         "The oracle is the allowed-operand table transcribed from the property statement: an allowed cell must produce its "
         "value (checked against Python for ints, bools, strings, equality and identity), every other cell must stop with a "
@@ -169,6 +171,34 @@ CONTEXTS = [
     ("range-indexed-value", "print(@V[0:0])\n", {"string", "list"}, {}, set()),
     ("type-function", "print(@V->type())\n", set(KINDS) - {"null"}, {}, set()),
 ]
+
+# destructuring contexts at boundary sizes: pattern (empty, one element, collect only) x binding position x source kind.
+# (pattern text, matching kind, representatives of the matching kind for which the binding itself succeeds)
+PATTERNS = [
+    ("{}", "object", ["o1", "o0"]), ("{a}", "object", ["o1"]), ("{\"a\": w}", "object", ["o1"]), ("{..r}", "object", ["o1", "o0"]),
+    ("[]", "list", ["l0"]), ("[e]", "list", ["[9]"]), ("[..r]", "list", ["l1", "l0"]),
+]
+PREDECL = "a := 0\ne := 0\nw := 0\nr := 0\nn1 := 0\n"
+POSITIONS = [
+    ("declare", "@P := @V\nprint(2)\n"),
+    ("assign", PREDECL + "@P = @V\nprint(2)\n"),
+    ("fn-parameter", "fn p(@P) {\n    return 1\n}\nprint(p(@V))\n"),
+    ("fn-second-parameter", "fn p([x, y], @P) {\n    return x + y\n}\nprint(p([1, 2], @V))\n"),
+    ("anonymous-fn-parameter", "q := fn(@P) {\n    return 1\n}\nprint(q(@V))\n"),
+    ("nested-in-list-pattern", "[n1, @P] := [1, @V]\nprint(2)\n"),
+    ("nested-in-list-pattern-assign", PREDECL + "[n1, @P] = [1, @V]\nprint(2)\n"),
+    ("nested-under-object-key", "{\"k\": @P} := {\"k\": @V}\nprint(2)\n"),
+    ("nested-twice", "[n1, {\"k\": [@P]}] := [1, {\"k\": [@V]}]\nprint(2)\n"),
+    ("for-target-over-list", "for [i, @P] in [@V] {\n    print(i)\n}\nprint(2)\n"),
+    ("for-target-over-object", "for [k, @P] in {\"k\": @V} {\n    print(k)\n}\nprint(2)\n"),
+]
+for _pat, _kind, _reps in PATTERNS:
+    for _pos, _tmpl in POSITIONS:
+        CONTEXTS.append((f"destructure:{_pos}:{_pat}", _tmpl.replace("@P", _pat), {_kind}, {_kind: _reps}, set()))
+# the whole `for` target receives the [key, value] pair, a list: an object pattern there is a kind mismatch for every iterable
+for _pat in ("{}", "{a}", "{..r}"):
+    CONTEXTS.append((f"destructure:for-whole-target:{_pat}", "for " + _pat + " in @V {\n    print(1)\n}\nprint(2)\n", set(),
+                     {"list": ["l1"], "object": ["o1"], "string": ['"ab"']}, {"null", "bool", "int", "func", "builtin"}))
 CTX = {c[0]: c for c in CONTEXTS}
 
 
@@ -194,6 +224,8 @@ def judge_ctx(spec, r):
     if out != "":
         return False, f"{what}: rejected, yet {out[:80]!r} was printed"
     words = set(TYPE_WORD.findall(strip_head(err)))
+    if name.startswith("destructure:for-whole-target"):
+        words |= {NAME[k]} if "list" in words or "object" in words else set()
     if not (NAME[k] in words or words & {NAME[o] for o in ok_kinds} or ("function" in err and "func" in {NAME[o] for o in ok_kinds})):
         return False, f"{what}: not a type diagnostic (names neither '{NAME[k]}' nor an accepted type): {err[:200]!r}"
     return True, ""
